@@ -46,3 +46,14 @@ package protocol
 //@ func protocol.HashAlg.HashFunc
 //@   inline
 //@   sweep panic
+
+// ---- message type -> protocol (C08) -------------------------------------------------------------
+//@ func protocol.Of
+//@   props C08
+//@   sweep panic
+//@   pure
+//@   ensures @di result == DIProtocol <==> (msgType >= 10 && msgType <= 13)
+//@   ensures @to0 result == TO0Protocol <==> (msgType >= 20 && msgType <= 23)
+//@   ensures @to1 result == TO1Protocol <==> (msgType >= 30 && msgType <= 33)
+//@   ensures @to2 result == TO2Protocol <==> (msgType >= 60 && msgType <= 71)
+//@   ensures @any result == AnyProtocol <==> msgType == 255
